@@ -399,6 +399,10 @@ pub fn gen_c09(out: &mut Out, seed: u64, thorough: bool) {
     for s in 0..nseq {
         let mut resizer = Resizer::new();
         let len = rng.range(2, 12);
+        // three sequences out of four keep one back-end throughout (chosen once, often not the best one), so
+        // that what `clone` / `reset` do to the selected back-end is visible in the following calls
+        let seq_ext = if rng.chance(3, 4) { Some(*rng.pick(&crate::util::exts())) } else { None };
+        let mut after_clone = false;
         for step in 0..len {
             match rng.below(12) {
                 0 => {
@@ -406,19 +410,33 @@ pub fn gen_c09(out: &mut Out, seed: u64, thorough: bool) {
                     out.count("op:reset");
                     continue;
                 }
-                1 => {
+                1 | 2 if step > 0 => {
                     resizer = resizer.clone();
                     out.count("op:clone");
+                    after_clone = true;
                     continue;
                 }
                 _ => {}
             }
-            let pt = *rng.pick(&ALL_TYPES);
+            // right after a clone: a 16-bit alpha image large enough for the one-unit difference between the
+            // portable and the SIMD alpha division to show if the clone lost the selected back-end
+            let big_alpha = after_clone && rng.chance(2, 3);
+            after_clone = false;
+            let pt = if big_alpha { *rng.pick(&[PixelType::U16x4, PixelType::U16x2]) } else { *rng.pick(&ALL_TYPES) };
             // larger-then-smaller and the reverse: sizes swing between tiny and large
             let max = if rng.chance(1, 2) { 6 } else { 40 };
-            let (sw, sh) = (random_size(&mut rng, max), random_size(&mut rng, max));
-            let (dw, dh) = (random_size(&mut rng, max), random_size(&mut rng, max));
+            let (sw, sh) = if big_alpha { (32, 32) } else { (random_size(&mut rng, max), random_size(&mut rng, max)) };
+            let (dw, dh) = if big_alpha { (48, 40) } else { (random_size(&mut rng, max), random_size(&mut rng, max)) };
             let mut case = base_case(&mut rng, pt, sw, sh, dw, dh);
+            if let Some((name, e)) = seq_ext {
+                case.ext_name = name;
+                case.ext = e;
+            }
+            if big_alpha {
+                case.alpha = true;
+                case.alg = AlgSpec::conv(1);
+                case.sbuf = random_comps(&mut rng, pt, (sw * sh) as usize, 0);
+            }
             case.crop = random_crop(&mut rng, sw, sh);
             if rng.chance(1, 10) {
                 case.crop = CropSpec::Box(0.0, 0.0, sw as f64 + 1.0, 1.0); // erroring call
